@@ -18,6 +18,12 @@ mod c07;
 #[cfg(feature = "std")]
 mod c13;
 mod c19;
+#[cfg(feature = "std")]
+mod blockwise;
+#[cfg(feature = "std")]
+mod c08;
+#[cfg(feature = "std")]
+mod c09;
 mod linkfmt;
 mod observe;
 
@@ -33,7 +39,11 @@ fn table() -> Vec<(&'static str, CheckFn)> {
     t.push(("C06", c06::run));
     t.push(("C07", c07::run));
     #[cfg(feature = "std")]
-    t.push(("C13", c13::run));
+    {
+        t.push(("C08", c08::run));
+        t.push(("C09", c09::run));
+        t.push(("C13", c13::run));
+    }
     t.push(("C14", observe::run_c14));
     t.push(("C15", observe::run_c15));
     t.push(("C16", linkfmt::run_c16));
